@@ -385,6 +385,14 @@ def _create_aggregate_by_group_functions(
             for arg in get_names_of_arguments_without_defaults(func)
         ]
         + targets
+        + [
+            spec["source_col"]
+            for spec in {
+                **aggregate_by_group_dict,
+                **user_provided_aggregate_by_group_specs,
+            }.values()
+            if "source_col" in spec
+        ]
     )
 
     automated_sum_aggregate_by_group_cols = [
